@@ -189,8 +189,8 @@ structure FpuSpec where
   fcomi : BitVec 80 → BitVec 80 → Rel
   /- ### contracts -/
   /-- the all-zero pattern is +0 in both SSE formats (`xorps %xmm1, %xmm1`), `fldz` pushes +0 -/
-  val32_zero : val32 0 = .fin false 0 0
-  val64_zero : val64 0 = .fin false 0 0
+  val32_zero : val32 0#32 = .fin false 0 0
+  val64_zero : val64 0#64 = .fin false 0 0
   val80_fldz : val80 fldz = .fin false 0 0
   /-- comparisons compare the denoted values; NaN operands are unordered -/
   ucomiss_spec : ∀ a b, ucomiss a b = Val.cmp (val32 a) (val32 b)
